@@ -6,3 +6,4 @@ import TjdLemmas.MtlLemmas
 import TjdLemmas.C06Lemmas
 import TjdLemmas.C12Lemmas
 import TjdLemmas.C13Lemmas
+import TjdLemmas.QPLemmas
